@@ -26,7 +26,8 @@ META = {
         '(D4) Remove is written x: below 3.0 and -: from 3.0, both read as Remove.  (D5) only numbers, quantities and '
         'coordinates use %f (documented six decimals); everything else is exact.  (D6) assembly: every meta item but '
         'ver, every column with its remaining keys, every row key reach the grid; every column of every row is '
-        'emitted.  (D7) date-time payloads: the reader converts the written instant into the named zone with astimezone (never replace/localize on the aware value), the writer emits isoformat() of the value itself plus the zone name.  Also: the h: time fields are converted with int() on digit text (no float leg, fraction cut/padded as text); the reader consumes private copies only (freshness, shared with C05.D3); SortableDict.items() pairs keys with their own values (shared with C16.D5).  Not decided: numerical closeness; equality of rebuilt objects; json.dumps/loads (trusted).'),
+        'emitted.  (D7) date-time payloads: the reader converts the written instant into the named zone with astimezone (never replace/localize on the aware value), the writer emits isoformat() of the value itself plus the zone name.  Also: the h: time fields are converted with int() on digit text (no float leg, fraction cut/padded as text); the reader consumes private copies only (freshness, shared with C05.D3); SortableDict.items() pairs keys with their own values (shared with C16.D5).  Not decided: numerical closeness; equality of rebuilt objects; json.dumps/loads (trusted).'
+        ' Also (D2): the JSON reference branch decides presence of the display string by `is not None` (the group can match the empty text); Ref.__init__ has_value table.'),
     'rule_text': 'obligations = ladder rows, kinds x (first-accepting entry, inclusion, capture markers) x 2 versions, '
                  'Remove rule, precision per kind, assembly facts',
     'trusted_base': ['re semantics of `.match`, `^`, `$`+MULTILINE, `.` without DOTALL; json.dumps/json.loads round-trip '
@@ -58,6 +59,9 @@ def run(ctx):
     J.verbatim_payload(ctx, 'C02.D3', entries, fn)
     J.time_fields_exact(ctx, 'C02.D5', entries, fn)
     J.number_branch(ctx, 'C02.D2', entries, fn)
+    from . import _ref
+    _ref.json_ref_branch(ctx, 'C02.D2')
+    _ref.ref_init(ctx, 'C02.D2')
     J.parse_scalar_entry(ctx, 'C02.D2')
     # a pre-decoded document can be parsed again: the reader consumes private copies only (clause shared with C05.D3)
     from . import c05
